@@ -141,18 +141,25 @@ static bool isInt(const std::string& s)
 	return true;
 }
 
+// the double x as n / 2^k in lowest terms (0 = 0 / 2^0); false if it is not of that form with k >= 0
+static bool dyad(double x, ll& n, ll& k)
+{
+	n = 0; k = 0;
+	if (x == 0) return true;
+	int e;
+	double f = frexp(x, &e);                     // x = f * 2^e, 0.5 <= |f| < 1
+	n = (ll)ldexp(f, 53);                        // exact: a 53-bit integer
+	k = 53 - e;
+	if (k < 0) return false;
+	while (k > 0 && n % 2 == 0) { n /= 2; k--; }
+	return true;
+}
+
 // a Date's stored double in lowest terms n / 2^k, the library's floor(t*1000+0.5) on it, splitUTC() and toUTCString(FULL)
 static std::string dblLine(const Date& d)
 {
-	ll n = 0, k = 0;
-	if (d.time() != 0) {
-		int e;
-		double f = frexp(d.time(), &e);          // time() = f * 2^e, 0.5 <= |f| < 1
-		n = (ll)ldexp(f, 53);                     // exact: a 53-bit integer
-		k = 53 - e;
-		if (k < 0) return "err exponent";
-		while (k > 0 && n % 2 == 0) { n /= 2; k--; }
-	}
+	ll n, k;
+	if (!dyad(d.time(), n, k)) return "err exponent";
 	ll r = (ll)floor(d.time() * 1000 + 0.5);
 	String F = d.toUTCString(Date::FULL);
 	return str(n) + " " + str(k) + " " + str(r) + " " + fieldsStr(d.splitUTC()) + " " + raw(F);
@@ -262,6 +269,16 @@ static std::string step(const Toks& t)
 		Date d((double)ms / 1000.0);
 		Date e = sec >= 0 ? d + (double)sec : d - (double)(-sec);
 		return dblLine(e);
+	}
+	if (op == "diff" && t.size() == 3 && isInt(t[1]) && isInt(t[2])) {
+		// double Date::operator-(const Date&): the difference in lowest terms n / 2^k and rounded to the millisecond
+		ll m1 = num(t[1]), m2 = num(t[2]);
+		if (m1 < MS_MIN || m1 > MS_MAX || m2 < MS_MIN || m2 > MS_MAX) return "range";
+		Date a((double)m1 / 1000.0), b((double)m2 / 1000.0);
+		double x = a - b;
+		ll n, k;
+		if (!dyad(x, n, k)) return "err exponent";
+		return str(n) + " " + str(k) + " " + str((ll)floor(x * 1000 + 0.5));
 	}
 	if (op == "cmp" && t.size() == 3 && isInt(t[1]) && isInt(t[2])) {
 		ll m1 = num(t[1]), m2 = num(t[2]);
